@@ -159,13 +159,6 @@ class CPreProcessor:
         """Retrieve the given define!"""
         return self.macros[name]
 
-    def in_hideset(self, name):
-        """Test if the given macro is contained in the current hideset."""
-        if self.files[-1].macro_expansions:
-            return name in self.files[-1].macro_expansions[-1].hideset
-        else:
-            return False
-
     def process_file(self, f, filename=None):
         """Process the given open file into tokens."""
         self.logger.debug("Processing %s", filename)
@@ -368,35 +361,47 @@ class CPreProcessor:
     def expand(self, macro_token):
         """Expand a single token into possibly more tokens."""
         name = macro_token.val
-        in_hideset = self.in_hideset(name)
-        # in_hideset = name in macro_token.hideset
-        if self.is_defined(name) and not in_hideset:
+        # The macros which are being replaced are tracked per token, in its
+        # hideset. This way, a macro name found during the rescan of its own
+        # replacement stays unavailable for replacement, also when it is
+        # examined again later on (for example as part of a macro argument).
+        if (
+            macro_token.typ == "ID"
+            and self.is_defined(name)
+            and name not in macro_token.hideset
+        ):
             if self.verbose:
                 self.logger.debug("Expanding macro %s", name)
 
             macro = self.get_define(name)
-            expansion = self.expand_macro(macro, macro_token)
-            if expansion is None:
+            result = self.expand_macro(macro, macro_token)
+            if result is None:
                 self.logger.debug("Not expanding function macro %s", name)
                 return False
             else:
-                if self.files[-1].macro_expansions:
-                    hideset = self.files[-1].macro_expansions[-1].hideset
-                else:
-                    hideset = set()
-                hideset = hideset | {macro.name}
+                expansion, hideset = result
+                expansion = [
+                    token.copy(hideset=token.hideset | hideset)
+                    for token in expansion
+                ]
 
                 if self.verbose:
                     self.logger.debug("%s expanded into %s", name, expansion)
 
                 self.copy_leading_space(macro_token, expansion)
-                self.push_expansion(MacroExpansion(iter(expansion), hideset))
+                self.push_expansion(MacroExpansion(iter(expansion)))
                 return True
         else:
             return False
 
     def expand_macro(self, macro, macro_token):
-        """Expand a single macro."""
+        """Expand a single macro.
+
+        Returns the replacement tokens, and the set of macro names which
+        must not be replaced within those tokens. Returns None when a function
+        like macro name is not followed by an argument list.
+        """
+        hideset = macro_token.hideset | {macro.name}
         if isinstance(macro, FunctionMacro):  # Special macro:
             expansion = macro.function(macro_token)
         else:  # Normal macro:
@@ -409,11 +414,16 @@ class CPreProcessor:
                     if token:
                         self.unget_token(token)
                     return
-                args = self.gatherargs(macro)
+                args, rparen = self.gatherargs(macro)
+                # Only macros hidden in both the macro name and the closing
+                # parenthesis stay hidden:
+                hideset = (macro_token.hideset & rparen.hideset) | {
+                    macro.name
+                }
                 expansion = self.substitute_arguments(macro, args)
 
             expansion = self.concatenate(expansion)
-        return expansion
+        return expansion, hideset
 
     def copy_leading_space(self, macro_token, expansion):
         # Adjust token spacings of first token to adhere spacing of
@@ -425,7 +435,7 @@ class CPreProcessor:
 
     def gatherargs(self, macro):
         """Collect expanded arguments for macro"""
-        args, commas = self.parse_arguments()
+        args, commas, rparen = self.parse_arguments()
 
         # Check amount of arguments:
         if macro.variadic:
@@ -469,7 +479,7 @@ class CPreProcessor:
                 args = []
 
         self.normalize_space(args)
-        return args
+        return args, rparen
 
     def normalize_space(self, args):
         """Normalize spaces in macro expansions.
@@ -493,6 +503,8 @@ class CPreProcessor:
 
         while parens > 0:
             token = self.next_token(expand=False)
+            if token is None:
+                self.error("Unterminated argument list of macro invocation")
 
             # Keep track of parenthesis level:
             if token.typ == "(":
@@ -512,7 +524,7 @@ class CPreProcessor:
                 arg.append(token)
 
         assert len(args) == len(commas) + 1
-        return args, commas
+        return args, commas, token
 
     def expand_token_sequence(self, tokens):
         """Macro expand a sequence of tokens."""
@@ -614,7 +626,11 @@ class CPreProcessor:
         # Invoke the lexer again on glued text to produce tokens:
         tokens = lex_text(total_text, self.coptions)
         if len(tokens) == 1:
-            return tokens[0].copy(space=lhs.space, first=lhs.first)
+            return tokens[0].copy(
+                space=lhs.space,
+                first=lhs.first,
+                hideset=lhs.hideset & rhs.hideset,
+            )
         else:
             self.error(f'Invalidly glued "{total_text}"', loc=lhs.loc)
 
@@ -1220,13 +1236,11 @@ class MacroExpansion:
 
     Contains:
     - a token iterator (tokens)
-    - a hideset
     """
 
-    def __init__(self, tokens, hideset):
+    def __init__(self, tokens):
         self.tokens = tokens
         self.token_buffer = []
-        self.hideset = hideset
 
     @property
     def peek(self):
